@@ -12,7 +12,9 @@ use std::collections::{BTreeMap, BTreeSet};
 use std::time::{Duration, Instant};
 
 const PEER_TIMEOUT: Duration = Duration::from_secs(2);
-const QUERY_TIMEOUT: Duration = Duration::from_secs(60);
+// Deliberately not a multiple of the peer timeout: the query timeout can elapse while a request
+// issued after a peer timeout is still in flight.
+const QUERY_TIMEOUT: Duration = Duration::from_secs(3);
 
 /// Universe index: 0..n-1 are peers, n is the target id itself.
 type P = u8;
@@ -328,8 +330,16 @@ impl QWorld {
                         self.on_issue(*id, now)?;
                         obs = format!("issue {}", self.idx(id));
                     }
-                    QueryState::Waiting(None) => obs = "wait".into(),
-                    QueryState::WaitingAtCapacity => obs = "capacity".into(),
+                    QueryState::Waiting(None) | QueryState::WaitingAtCapacity => {
+                        obs = if state == QueryState::WaitingAtCapacity { "capacity".into() } else { "wait".into() };
+                        if self.cfg.pool && self.started.map_or(false, |s| now >= s + QUERY_TIMEOUT) {
+                            return Err(self.violation(
+                                "every lookup terminates (finishes or is cut off by the query timeout)",
+                                "c09:not-cut-off-in-time",
+                                format!("the pool keeps a waiting lookup {:?} after it was first polled (query timeout {:?})", now.saturating_duration_since(self.started.unwrap()), QUERY_TIMEOUT),
+                            ));
+                        }
+                    }
                     QueryState::Finished => {
                         let r = result.expect("result of a finished query");
                         self.finish(r, timed_out)?;
@@ -392,7 +402,12 @@ impl QWorld {
                 obs = "idle".into();
             }
             QEv::IdleQuery => {
-                clock::advance(QUERY_TIMEOUT);
+                // to the earliest instant at which the pool owes the cut-off, or a full period later
+                let now = Instant::now();
+                match self.started {
+                    Some(s) if now < s + QUERY_TIMEOUT => clock::advance(s + QUERY_TIMEOUT - now),
+                    _ => clock::advance(QUERY_TIMEOUT),
+                }
                 obs = "idle-query".into();
             }
         }
